@@ -253,7 +253,7 @@ func csvProp[T any](name string, genRow func(t *rapid.T, excluded *int) T) engin
 				if a > b {
 					a, b = b, a
 				}
-				c.Calls = append(c.Calls, Call{K: rapid.SampledFrom([]string{"write", "write", "append", "appendorwrite", "appendorwrite"}).Draw(t, "call"), From: a, To: b})
+				c.Calls = append(c.Calls, Call{K: rapid.SampledFrom([]string{"write", "write", "append", "appendorwrite", "appendorwrite", "appendorwrite", "empty"}).Draw(t, "call"), From: a, To: b})
 			}
 			return c
 		},
@@ -283,6 +283,24 @@ func csvProp[T any](name string, genRow func(t *rapid.T, excluded *int) T) engin
 			if err != nil {
 				o.Failf("%s: the written file is not valid CSV: %v\n%s", name, err, text)
 				return o
+			}
+			// dates are written in the declared format
+			st := reflect.TypeOf((*T)(nil)).Elem()
+			for fi := 0; fi < st.NumField(); fi++ {
+				if st.Field(fi).Type.String() != "time.Time" {
+					continue
+				}
+				layout, ok := st.Field(fi).Tag.Lookup("format")
+				if !ok {
+					layout = helper.DefaultDateTimeFormat
+				}
+				for ri := range c.Rows {
+					want := reflect.ValueOf(c.Rows[ri]).Field(fi).Interface().(time.Time).Format(layout)
+					if ri+1 < len(recs) && recs[ri+1][fi] != want {
+						o.Failf("%s: field %s of row %d is written as %q, its declared format %q gives %q", name, st.Field(fi).Name, ri, recs[ri+1][fi], layout, want)
+						return o
+					}
+				}
 			}
 			w := csv.NewWriter(&buf)
 			for ri, rec := range recs {
@@ -328,6 +346,14 @@ func csvProp[T any](name string, genRow func(t *rapid.T, excluded *int) T) engin
 					}
 					err = codec2[T]().AppendToFile(path, helper.SliceToChan(ptrs(rows)))
 					model = append(model, rows...)
+				case "empty":
+					// somebody left an empty file behind (touch): the next append-or-write must start it properly
+					err = os.WriteFile(path, nil, 0o600)
+					model = nil
+					exists = false
+					if err == nil {
+						continue
+					}
 				case "appendorwrite":
 					err = helper.AppendOrWriteToCsvFile(path, true, helper.SliceToChan(ptrs(rows)))
 					model = append(model, rows...)
